@@ -301,6 +301,8 @@ def esp_post(kind):
         looks = [e for e in c.trace if e[0] == 'lookup']
         muted = c.pre.self._is_muted
         should_play = z3.And(z3.Not(muted), z3.Not(IS_REST))
+        if c.resultv.k not in ('int', 'real'):
+            return z3.BoolVal(False)                                        # the clock only reschedules numbers
         r = c.result
         want = z3.Real('the_delta') if kind == 'number' else z3.Real('rest-delta.value')
         return z3.And(z3.BoolVal(len(plays) <= 1 and len(looks) == 1 and looks[0][1] == 'delta'),
